@@ -77,7 +77,29 @@ def do_run(sid, extra_props=()):
     wt = worktree(sid)
     try:
         ap = sh(["git", "-C", wt, "apply", os.path.join(d, "patch.diff")])
-        assert ap.returncode == 0, ap.stderr
+        if ap.returncode != 0:
+            # later fix: commits touched the same lines; try a three-way merge against the blobs the patch names
+            ap = sh(["git", "-C", wt, "apply", "--3way", os.path.join(d, "patch.diff")])
+            if ap.returncode == 0 and sh("go build ./...", cwd=wt).returncode != 0:
+                ap.returncode = 1
+        if ap.returncode != 0:
+            meta["applies_to_head"] = False
+            meta["head_note"] = "the patch no longer applies to /repo HEAD (a later fix: commit rewrote the lines it edits); the result recorded is the one obtained on the tree it was written for (%s)" % meta.get("repo_commit")
+            json.dump(meta, open(os.path.join(d, "meta.json"), "w"), indent=1)
+            print(sid, "SKIPPED: patch does not apply to HEAD any more; keeping", meta.get("caught_by"))
+            return
+        # does the change still do harm on this HEAD? (a later fix: commit may have neutralised it)
+        demo = os.path.join(d, "seed_demo_test.go")
+        if os.path.exists(demo):
+            shutil.copy(demo, os.path.join(wt, "seed_demo_test.go"))
+            dr = sh("go test -vet=off -count=1 -run 'TestSeedDemo$' ./...", cwd=wt)
+            os.remove(os.path.join(wt, "seed_demo_test.go"))
+            if dr.returncode == 0:
+                meta["neutralised_on_head"] = True
+                meta["head_note"] = "on /repo HEAD the patch applies but its own demonstration passes: a later fix: commit has neutralised the change; the result recorded is the one obtained on the tree it was written for (%s)" % meta.get("repo_commit")
+                json.dump(meta, open(os.path.join(d, "meta.json"), "w"), indent=1)
+                print(sid, "SKIPPED: neutralised on HEAD (demo passes with the patch); keeping", meta.get("caught_by"))
+                return
         res = {}
         caught = None
         for prop in [meta["property"], *extra_props]:
@@ -107,6 +129,6 @@ if __name__ == "__main__":
     if sys.argv[1] == "import":
         do_import(sys.argv[2], sys.argv[3], sys.argv[4])
     else:
-        ids = sys.argv[2:] or sorted(d for d in os.listdir(SDIR) if os.path.isdir(os.path.join(SDIR, d)))
+        ids = sys.argv[2:] or sorted(d for d in os.listdir(SDIR) if os.path.isdir(os.path.join(SDIR, d)) and d.startswith("S-"))
         for sid in ids:
             do_run(sid)
